@@ -60,7 +60,7 @@ def cases_for(ctx):
             cases.append({'behaviours': seq, 'dedicated': False, 'recycle': rc, 'keep': keep, 'pair': 'R%d' % i})
         else:
             seq = [rng.choice(nf + H.FATAL + ['equal', 'equal']) for _ in range(n)]
-            if sum(1 for b in seq if b in ('hang', 'late')) > 3:
+            if sum(1 for b in seq if b in ('hang', 'late', 'hang_sigterm_ignored')) > 3:
                 continue
             cases.append({'behaviours': seq, 'dedicated': True, 'recycle': rng.choice([1, 2, 3, 5]), 'keep': rng.random() < 0.5})
     return cases
@@ -90,7 +90,7 @@ def judge(ctx, case, res, w):
             ctx.violation('verdict is not wrapped into a ComparatorResult', ww)
         if r['status'] != exp:
             prev = beh[:i]
-            after_fault = any(x in ('late', 'hang', 'exit') for x in prev)
+            after_fault = any(x in H.FATAL for x in prev)
             ctx.violation('recording scripted %r got verdict %s, expected %s%s' % (b, r['status'], exp, ' (after an earlier worker fault)' if after_fault else ''), ww)
             continue
         # attribution
